@@ -915,6 +915,45 @@ func rulesC19(c *Ctx) {
 				return true
 			})
 		}
+		// ReadSlice / ReadLine stop at the reader's buffer size: a line longer than that comes back as ErrBufferFull /
+		// isPrefix, and code that does not look at that signal has a line limit just like a Scanner
+		if bounded == "" && !okRB {
+			usesSlice, handlesFull, usesLine, handlesPrefix := "", false, "", false
+			for _, g0 := range c.pkgClosure(se) {
+				ast.Inspect(g0.Body, func(n ast.Node) bool {
+					switch x := n.(type) {
+					case *ast.SelectorExpr:
+						if o := g0.ObjOf(x.Sel); o != nil && o.Pkg() != nil && o.Pkg().Path() == "bufio" && o.Name() == "ErrBufferFull" {
+							handlesFull = true
+						}
+					case *ast.AssignStmt:
+						if len(x.Rhs) == 1 {
+							if call, ok := ast.Unparen(x.Rhs[0]).(*ast.CallExpr); ok {
+								if fn := g0.Callee(call); fn != nil && fn.FullName() == "(*bufio.Reader).ReadLine" {
+									usesLine = g0.At(call)
+									if len(x.Lhs) == 3 {
+										if id, isID := x.Lhs[1].(*ast.Ident); isID && id.Name != "_" {
+											handlesPrefix = true
+										}
+									}
+								}
+							}
+						}
+					case *ast.CallExpr:
+						if fn := g0.Callee(x); fn != nil && fn.FullName() == "(*bufio.Reader).ReadSlice" {
+							usesSlice = g0.At(x)
+						}
+					}
+					return true
+				})
+			}
+			if usesSlice != "" && !handlesFull {
+				bounded = usesSlice + " (ReadSlice without a test for bufio.ErrBufferFull)"
+			}
+			if usesLine != "" && !handlesPrefix {
+				bounded = usesLine + " (ReadLine ignoring isPrefix)"
+			}
+		}
 		if bounded == "" && !okRB {
 			c.Undecided("scanEvents:unbounded-lines", se, nil, "lines are read by something other than ReadBytes/ReadString and not by a bufio.Scanner (ReadSlice/ReadLine with a spill buffer?): whether lines of any length survive is not decided here")
 		} else {
